@@ -610,7 +610,7 @@ pub fn run_c03(ctx: &Ctx) {
         max_records: 24,
         max_raw: 300,
     };
-    run_wire(ctx, &prop, relay_case_strategy(sz, true), ctx.tier.pick(1_280, 150_000), 64);
+    run_wire(ctx, &prop, relay_case_strategy(sz, true), ctx.tier.pick(1_280, 40_000), 64);
 }
 
 pub fn run_c04_wire(ctx: &Ctx) {
@@ -664,8 +664,47 @@ pub fn run_c04_wire(ctx: &Ctx) {
             }
         }
     }
-    run_wire(ctx, &prop, relay_case_strategy(small, false), ctx.tier.pick(1_500, 60_000), 48);
-    run_wire(ctx, &prop, relay_case_strategy(big, false), ctx.tier.pick(600, 20_000), 24);
+    // the same over UDP around the size the client advertised (1232 with EDNS, 512 without)
+    for (edns, lens) in [
+        (Some(dns::Edns { udp_size: 1232, ext_rcode: 0, version: 0, do_bit: false, options: vec![] }), 1150usize..=1212),
+        (None, 428usize..=492),
+    ] {
+        let cases: Vec<RelayCase> = lens
+            .map(|l| RelayCase {
+                qname: vec![],
+                qtype: 1,
+                qclass: 1,
+                cd: false,
+                ad: false,
+                edns: edns.clone(),
+                tcp: false,
+                v4: l % 2 == 0,
+                reply: dns::Message {
+                    header: dns::Header { qr: true, rd: true, ra: true, ..Default::default() },
+                    answer: vec![dns::Rr { name: vec![b"x".to_vec()], rtype: 65280, class: 1, ttl: 60, rdata: dns::RData::Raw(vec![0x5a; l]) }],
+                    ..Default::default()
+                },
+                compress: 0,
+                requery_ms: None,
+                requery_flip_case: false,
+            })
+            .collect();
+        let outs = prop.exec_batch(&cases);
+        for (case, mut out) in cases.iter().zip(outs.into_iter()) {
+            out.class("udp-answer-around-the-advertised-size");
+            ctx.record(prop.sub(), case, &out);
+            if let Some(f) = out.fail {
+                if ctx.is_known(&f.sig) {
+                    ctx.known_hit(&f.sig);
+                } else {
+                    ctx.violation(prop.sub(), &f, case);
+                    return;
+                }
+            }
+        }
+    }
+    run_wire(ctx, &prop, relay_case_strategy(small, false), ctx.tier.pick(1_500, 24_000), 48);
+    run_wire(ctx, &prop, relay_case_strategy(big, false), ctx.tier.pick(600, 8_000), 24);
 }
 
 pub fn replay(id: &str, sub: &str, case: &serde_json::Value) -> Option<Result<Outcome, String>> {
